@@ -9,7 +9,8 @@ from ..strat import uni, logu
 
 META = dict(
     technique='Hypothesis-generated (opacity, specific-heat coefficient i.e. epsilon, boundary temperature, x, tau); finite-difference residuals of the dimensionless '
-              'equations at two step sizes, one-sided Marshak condition, decay and ordering predicates',
+              'equations at two step sizes, one-sided Marshak condition, decay and ordering predicates; generated request layouts (cold points first, unsorted, '
+              'near-surface points) against single-point requests',
     rule='cases = (opac, alpha with epsilon = 4a/alpha in [0.1, 2.5], T_bc, dimensionless position x in [0, 10] and time tau in [0.05, 30]) mapped to physical '
          '(z, t) with the documented conversion x = sqrt3 opac z, tau = 4 a c opac t / alpha; oracle = eps u_tau - u_xx - (v - u) = 0 and v_tau - (u - v) = 0 with '
          'u = (T_rad/T_bc)^4, v = (T_mat/T_bc)^4 (4th-order stencils, h and h/2 must both fail), u - (2/sqrt3) u_x = 1 at x = 0 (one-sided 4th-order), '
